@@ -13,8 +13,8 @@ from mc.bind import pyasn1_bind as B
 
 from pyasn1 import error as pyerr
 from pyasn1.codec.ber import encoder as ber_enc, decoder as ber_dec
-from pyasn1.codec.der import decoder as der_dec
-from pyasn1.codec.cer import decoder as cer_dec
+from pyasn1.codec.der import decoder as der_dec, encoder as der_enc
+from pyasn1.codec.cer import decoder as cer_dec, encoder as cer_enc
 
 PROPERTY = 'C10'
 LEVEL = 'fault_enumeration'
@@ -33,6 +33,9 @@ ASSUMPTIONS = [
     'CPython 3.12, PYTHONHASHSEED=0',
 ]
 DECS = {'ber': ber_dec.decode, 'cer': cer_dec.decode, 'der': der_dec.decode}
+REENCODERS = (('ber', ber_enc.encode, 'ber'),
+              ('ber-indef-chunk1', lambda o: ber_enc.encode(o, defMode=False, maxChunkSize=1), 'ber'),
+              ('cer', cer_enc.encode, 'cer'), ('der', der_enc.encode, 'der'))
 
 INT, BOOL, OCTS, UTF8, BITS = U.INT, U.BOOL, U.OCTS, U.UTF8, U.BITS
 
@@ -93,7 +96,9 @@ def _open_spec(T):
 
 B._spec_cache[T_OPEN_WCA] = _open_spec(T_OPEN_WCA)
 B._spec_cache[T_OPEN_WCP] = _open_spec(T_OPEN_WCP)
-TYPES = [('int-except2', T_EXC2), ('int-union3', T_OR3), ('int-not', T_NOT), ('seq-except', T_SEQ_EXC),
+T_BITS5 = CON(('SZ', 1, 5), BITS)
+T_SEQ_BITS = ('SEQ', (('f', CON(('SZ', 9, 12), U.I(4, BITS)), 'R', None), ('g', T_BITS5, 'O', None)))
+TYPES = [('bits-size', T_BITS5), ('seq-bits-size', T_SEQ_BITS), ('int-except2', T_EXC2), ('int-union3', T_OR3), ('int-not', T_NOT), ('seq-except', T_SEQ_EXC),
          ('open-wc-absent', T_OPEN_WCA), ('open-wc-present', T_OPEN_WCP), ('int-range', T_INT), ('int-sv', T_SV), ('octs-size', T_OCTS), ('utf8-size-alpha', T_UTF8),
          ('seqof-size', T_SEQOF), ('setof-size', T_SETOF), ('seq', T_SEQ), ('set', T_SET), ('set2', T_SET2), ('wc-absent', T_WC),
          ('wc-present', T_WCP), ('choice', T_CH), ('nested', T_NEST)]
@@ -111,6 +116,8 @@ def domain(T):
         return [False, True]
     if k == 'OCTS':
         return [b'', b'a', b'ab', b'abc']
+    if k == 'BITS':
+        return ['', '1', '10101', '0' * 9, '101010101010', '1' * 13]
     if k == 'STR':
         return ['', 'a', 'ab', 'abc', 'c', 'ac']
     if k in ('SEQOF', 'SETOF'):
@@ -274,16 +281,25 @@ def check_input(idx, name, T, origin, form, data, R):
                         'a value satisfying all constraints, or rejection', decname + '.decoder',
                         feats | {'viol:' + why.split(' ')[0]}, idx)
             continue
-        try:
-            again = ber_enc.encode(obj)
-        except Exception as e:
-            R.violation('reencode.error', rec, '%s re-encoding result of decode(%s) = %r' % (exc_text(e), data.hex()[:60], a),
-                        'encoder accepts the value', pyasn1_site(e), feats, idx)
-            continue
-        d = CM.decode_to_abs('ber', again, T, spec)
-        if d[0] != 'ok' or d[2] != b'' or not M.values_equal(T, d[1], a):
-            R.violation('fixpoint', rec, 'decode(encode(x)) = %s for x = %r' % (
-                (exc_text(d[1]) if d[0] == 'exc' else repr(d[1:])), a), repr(a), 'ber', feats, idx)
+        bad = False
+        for ename, enc, dname in REENCODERS:
+            try:
+                again = enc(obj)
+            except Exception as e:
+                R.violation('reencode.error', dict(rec, enc=ename), '%s re-encoding (%s) result of decode(%s) = %r' % (
+                    exc_text(e), ename, data.hex()[:60], a), 'encoder accepts the value', pyasn1_site(e), feats | {'enc:' + ename}, idx)
+                bad = True
+                continue
+            d = CM.decode_to_abs(dname, again, T, spec)
+            if d[0] != 'ok' or d[2] != b'' or not M.values_equal(T, d[1], a):
+                if ename != 'ber' and CM.model_reads(T, again, a)[0] is False:
+                    # the recorded encoder defects (K1 stray end-of-octets, K2 omitted empty OPTIONAL) are C01-C03's subject
+                    R.features['reencode.encoder_output_wrong_is_C03'] += 1
+                    continue
+                R.violation('fixpoint', dict(rec, enc=ename), 'decode(encode(x)) [%s] = %s for x = %r' % (
+                    ename, (exc_text(d[1]) if d[0] == 'exc' else repr(d[1:])), a), repr(a), ename, feats | {'enc:' + ename}, idx)
+                bad = True
+        if bad:
             continue
         R.features['accepted_ok'] += 1
         R.features['accepted:' + origin.split(':')[0]] += 1
